@@ -199,7 +199,7 @@ class Zone:
         # sub-terms that carry definitional axioms
         for t in list(terms):
             for s in mir.walk(t):
-                if isinstance(s, tuple) and s and (s[0] in ("binop", "pcall", "load", "int", "cparam") or s[:2] in (("call", "add_mod"), ("call", "sub_mod"))):
+                if isinstance(s, tuple) and s and (s[0] in ("binop", "pcall", "load", "int", "cparam") or s[:2] in (("call", "add_mod"), ("call", "sub_mod")) or _is_call_result(s)):
                     if s[0] == "binop" and s[1] not in ("Sub", "Add"):
                         continue
                     terms.add(s)
@@ -210,6 +210,7 @@ class Zone:
         for i in range(n):
             self.d[i][i] = 0
         self.contradiction = False
+        self._ens_done = set()
         self._build()
 
     def _add(self, a, b, w):
@@ -281,7 +282,7 @@ class Zone:
                         changed = True
                     if self.le(y, x, 0) and self._add(y, x, -1):
                         changed = True
-            for t in self.terms:
+            for t in list(self.terms):
                 if t[0] == "load" and len(t[2]) == 1 and isinstance(t[2][0], str) and t[3][0] == "def":
                     v = stored_value(self.fn, t)
                     if v is not None:
@@ -335,6 +336,25 @@ class Zone:
                                 changed = True
                             if self._add(a, t, -1):
                                 changed = True
+                if t[0] == "pcall" and t[1] == "<[T]>::len" and len(t[2]) == 1:
+                    x = norm(t[2][0])
+                    if isinstance(x, tuple) and x and x[0] == "field" and isinstance(x[1], tuple) and x[1][:2] in (("call", "CircularBuffer::as_slices"), ("call", "CircularBuffer::as_mut_slices")) and len(x[1]) == 4:
+                        # each of the two pieces of the contents is at most the whole: len(piece) <= size (at the call)
+                        cb = x[1][3]
+                        if isinstance(cb, int) and cb < len(self.fn.blocks):
+                            sz = ("load", norm(x[1][2][0]), ("size",), self.fn.version_at(cb, len(self.fn.blocks[cb]["stmts"]), ("M", "size")))
+                            if sz not in self.idx:
+                                self._grow(sz)
+                            if self._add(t, sz, 0):
+                                changed = True
+                if _is_call_result(t) and t not in self._ens_done:
+                    self._ens_done.add(t)
+                    for a in instantiate_ensures(self.fn, t):
+                        for x in (a[1], a[2]):
+                            if x not in self.idx:
+                                self._grow(x)
+                        if self._add(a[1], a[2], a[3]):
+                            changed = True
                 if t[0] == "call" and t[1] in ("add_mod", "sub_mod") and len(t[2]) == 3:
                     # the modular helpers return a position: result < m when m > 0 (their contract; the
                     # arithmetic that establishes it is C19's stated assumption)
@@ -399,6 +419,87 @@ class Zone:
 
     def is_variant(self, e, v):
         return ("is", e, v) in self.atoms
+
+
+def _is_call_result(s):
+    """('call', local fn, args, block) or a tuple component ('field', <that>, i) of it"""
+    if not isinstance(s, tuple) or not s:
+        return False
+    if s[0] == "field" and isinstance(s[1], tuple) and s[1][:1] == ("call",) and len(s[1]) == 4:
+        return True
+    return s[0] == "call" and len(s) == 4 and isinstance(s[1], str)
+
+
+_ENSURES = {}
+
+
+def ensures(g):
+    """Postcondition of a crate function with one normal return: the difference constraints that hold at
+    the return between the components of the returned value (('ret',) or ('ret', field)) and the entry
+    terms (parameters, const parameters, memory at entry). E.g. translate_range_bounds: ret.0 <= ret.1,
+    ret.1 <= (*buf).size, because its assertions dominate the return."""
+    key = (id(g.prog), g.short)
+    if key in _ENSURES:
+        return _ENSURES[key]
+    _ENSURES[key] = []  # recursion guard
+    out = []
+    rets = g.return_blocks() if g.has_mir else []
+    if len(rets) == 1 and not g.is_closure():
+        r = rets[0]
+        e = norm(g.deep_simplify(g.return_expr(r)))
+        comps = {}
+        if isinstance(e, tuple) and e and e[0] == "agg" and e[1] == "tuple":
+            for name, x in e[3]:
+                comps[norm(x)] = ("ret", str(name))
+        elif isinstance(e, tuple) and e and g.locals and g.locals[0]["ty"] == "usize":
+            comps[e] = ("ret",)
+        comps = {k: v for k, v in comps.items() if isinstance(k, tuple) and k and k[0] != "int"}
+        if comps:
+            Z = Guards(g).closure(r, extra_terms=list(comps))
+            if not Z.contradiction:
+                entry = [x for x in Z.terms if x not in comps and x != ZERO and x[0] != "int" and mir.entry_terms_only(x)]
+                for x in comps:
+                    for y in list(comps) + entry:
+                        if x == y:
+                            continue
+                        for (p, q) in ((x, y), (y, x)):
+                            w = Z.d[Z.idx[p]][Z.idx[q]]
+                            if w < INF and w <= 0:
+                                out.append(("le", comps.get(p, p), comps.get(q, q), w))
+    _ENSURES[key] = out
+    return out
+
+
+def instantiate_ensures(fn, t):
+    """ENSURES atoms of the callee of call-result term t, in fn's terms"""
+    call = t[1] if t[0] == "field" else t
+    g = fn.prog.fns.get(call[1])
+    if g is None or not g.has_mir or g is fn:
+        return []
+    ens = ensures(g)
+    if not ens:
+        return []
+    b = call[3]
+    if not isinstance(b, int) or b >= len(fn.blocks) or fn.term(b)["k"] != "call":
+        return []
+    cal = mir.callee_of(fn.term(b)) or {}
+    gargs = cal.get("rargs") or cal.get("args") or []
+    args = tuple(call[2])
+    out = []
+
+    def inst(x):
+        if x == ("ret",):
+            return call
+        if isinstance(x, tuple) and x[:1] == ("ret",):
+            return ("field", call, x[1])
+        return norm(fn.deep_simplify(mir.translate(g, x, fn, b, args, gargs)))
+
+    for a in ens:
+        try:
+            out.append(("le", inst(a[1]), inst(a[2]), a[3]))
+        except mir.Untranslatable:
+            continue
+    return out
 
 
 def _deref_value(e):
